@@ -330,6 +330,56 @@ Theorem C18_euclidean_squared : forall sqrtf : R -> R, (forall a, 0 <= a -> sqrt
 Proof. exact euclidean_squared. Qed.
 Print Assumptions C18_euclidean_squared.
 
+(* ------------------------------------------------------------------ further clauses *)
+(* Python index semantics used by impose_support / impose_unweighted *)
+Theorem C18_in_index_spec : forall n ix i,
+  in_index n ix i = true <->
+  exists z, In z ix /\ ((0 <= z)%Z /\ Z.to_nat z = i \/ (z < 0)%Z /\ (0 <= Z.of_nat n + z)%Z /\ Z.to_nat (Z.of_nat n + z) = i).
+Proof. exact in_index_spec. Qed.
+Print Assumptions C18_in_index_spec.
+
+Theorem C18_impose_unweighted_none : forall x w nullable, Rsum w <> 0 ->
+  impose_unweighted NumR None x w nullable = impose_support NumR None x w.
+Proof. exact impose_unweighted_none. Qed.
+Print Assumptions C18_impose_unweighted_none.
+
+(* nullable=False and no weight left outside [index]: the other positions share the old total equally *)
+Theorem C18_impose_unweighted_refilled_spec : forall ix x w,
+  length x = length w -> Rsum w <> 0 -> Rsum (drop_weights NumR (Some ix) w) = 0 ->
+  Rsum (ones_outside NumR (Some ix) w) <> 0 ->
+  exists y wts c,
+    impose_unweighted NumR (Some ix) x w false = Some (y, wts) /\ c <> 0 /\ length wts = length w /\
+    length y = length x /\
+    (forall i, (i < length w)%nat -> nth i wts 0 = if in_index (length w) ix i then 0 else c) /\
+    Rsum wts = Rsum w /\ mean NumR y (Some wts) = mean NumR x (Some w).
+Proof. exact impose_unweighted_refilled_spec. Qed.
+Print Assumptions C18_impose_unweighted_refilled_spec.
+
+Theorem C18_normalize_l1_hits : forall w, Rsum (map Rabs w) <> 0 -> Rsum (map Rabs (normalize_l1 NumR w)) = 1.
+Proof. exact normalize_l1_hits. Qed.
+Print Assumptions C18_normalize_l1_hits.
+
+Theorem C18_normalize_l2_hits : forall sqrtf : R -> R, (forall a, 0 <= a -> sqrtf a * sqrtf a = a) ->
+  forall w, Lnorm2 NumR sqrtf w <> 0 -> Rsum (map (fun t => t * t) (normalize_l2 NumR sqrtf w)) = 1.
+Proof. exact normalize_l2_hits. Qed.
+Print Assumptions C18_normalize_l2_hits.
+
+(* pair=False: the metric ranges over all |x_i - x'_j| *)
+Theorem C18_chebyshev_all_textbook : forall x y M, chebyshev_d NumR (absdiff_all NumR x y) = Some M ->
+  (exists a b, In a x /\ In b y /\ M = Rabs (a - b)) /\
+  (forall a b, In a x -> In b y -> Rabs (a - b) <= M).
+Proof. exact chebyshev_all_textbook. Qed.
+Print Assumptions C18_chebyshev_all_textbook.
+
+(* the basic promise of impose_collapse for one proper pair (i,j): the weight of j moves onto i, nothing else changes *)
+Theorem C18_impose_collapse_single_pair : forall i j x w y wts,
+  i <> j -> (i < length w)%nat -> (j < length w)%nat -> length x = length w ->
+  impose_collapse NumR [(Z.of_nat i, Z.of_nat j)] x w = Some (y, wts) ->
+  nth j wts 0 = 0 /\ nth i wts 0 = nth i w 0 + nth j w 0 /\
+  (forall k, k <> i -> k <> j -> nth k wts 0 = nth k w 0) /\ Rsum wts = Rsum w.
+Proof. exact impose_collapse_single_pair. Qed.
+Print Assumptions C18_impose_collapse_single_pair.
+
 (* ------------------------------------------------------------------ non-vacuity *)
 (* the premises about sqrt are met by the real square root *)
 Example C18_sqrt_premises_satisfiable :
